@@ -26,7 +26,27 @@
 //!   lsp <lastId> <startId> <startNum> <lastN> <boundary> <d,d,..> <kind> <numbers>
 //!                                -> GetLastStateProof through the real handler; <kind> and <numbers> are what the
 //!                                   real reply was (the sampling logic is not modelled): proof <term;..> root <term> roots=<term;..> | <kind>
+//!   nodes                        -> nodes <size> <term;..>   the raw COLUMN_CHAIN_ROOT_MMR rows (ChainStore::get_header_digest(pos)
+//!                                   on the node's snapshot) for EVERY position below leaf_index_to_mmr_size(tip); each is compared
+//!                                   with an independently computed node array over the main chain's digests (real merge) and,
+//!                                   as a merge term, with the model's own store (`none` = row missing)
+//!   xblk <id> <parent> <len|none> <at:K|of:ID|flip>
+//!                                -> ok | rejected   a fully valid block on <parent> (any known block) whose extension is replaced:
+//!                                   <len> bytes (none = no extension field) starting with the hash of the chain root over the
+//!                                   first K+1 blocks of the parent's own ancestor path (at:K), over genesis..=block ID (of:ID),
+//!                                   or over all ancestors with one bit flipped (flip), padded with 0xAB / truncated to <len>;
+//!                                   the header's extra_hash is recomputed, the block is submitted through the chain service.
+//!                                   A block that does not become the best chain is stored unverified (ok); a later block whose
+//!                                   not yet verified ancestors include a non-conforming one is rejected when it would overtake.
+//!                                   `blk` answers `rejected` in exactly that situation.
 //! A block id encodes its number: id % 10000.
+//!
+//! Besides the random generator, three structured generators run in EVERY run (see `gen_aba_case`, `gen_xblk_case`):
+//! A->B->A' reorgs (re-attaching already verified blocks), extension boundaries through real submission incl. a failed
+//! reorg over a bad side-branch block, and light-client proofs spanning the fork point after each step.
+//! VERIF_C19_SELFTEST=stale-row | abandoned-root | skip-filter (off by default) make the harness's ORACLE deliberately wrong in
+//! one clause (compare rows against the previous main chain / treat the current root as the abandoned one / pretend one
+//! main-chain filter is missing) to confirm that bin/check reports a VIOLATION; never set in normal runs.
 use crate::common::*;
 use crate::node::*;
 #[path = "../../hcore/src/c19.rs"]
@@ -331,6 +351,36 @@ struct NSim {
     hash_terms: HashMap<Vec<u8>, String>,
     main: Vec<u64>,
     reorgs: u64,
+    /// id -> parent id (every delivered block)
+    parent: HashMap<u64, u64>,
+    /// stored blocks whose extension does not conform (absent / short / long / wrong root): must never be on the main chain
+    badext: std::collections::HashSet<u64>,
+    /// blocks the node rejected (deleted from its store)
+    gone: std::collections::HashSet<u64>,
+    /// earlier main chains that were (partly) abandoned by a reorg, most recent last
+    abandoned: Vec<Vec<u64>>,
+    /// re-attached (previously verified) blocks seen in reorgs
+    reattached: u64,
+    selftest: String,
+}
+
+/// the full MMR node array (post-order positions) over a digest list: the property's own definition of what
+/// COLUMN_CHAIN_ROOT_MMR must hold below the size of the chain; independent of the crate's position arithmetic
+fn spec_nodes<M: Merge<Item = HeaderDigest>>(ds: &[HeaderDigest]) -> Vec<HeaderDigest> {
+    let mut nodes: Vec<HeaderDigest> = vec![];
+    let mut stack: Vec<(u32, HeaderDigest)> = vec![];
+    for d in ds {
+        nodes.push(d.clone());
+        stack.push((0, d.clone()));
+        while stack.len() >= 2 && stack[stack.len() - 1].0 == stack[stack.len() - 2].0 {
+            let (h, r) = stack.pop().unwrap();
+            let (_, l) = stack.pop().unwrap();
+            let m = M::merge(&l, &r).expect("merge of consecutive digests");
+            nodes.push(m.clone());
+            stack.push((h + 1, m));
+        }
+    }
+    nodes
 }
 
 impl NSim {
@@ -341,7 +391,11 @@ impl NSim {
         let node = Node::start(&base.join("node"), consensus.clone(), &cfg);
         let builder = ChainBuilder::new(consensus.clone(), &base.join("builder"));
         let g = builder.genesis();
-        let mut s = NSim { node: Some(node), builder, blocks: HashMap::new(), by_hash: HashMap::new(), hash_terms: HashMap::new(), main: vec![], reorgs: 0 };
+        let mut s = NSim {
+            node: Some(node), builder, blocks: HashMap::new(), by_hash: HashMap::new(), hash_terms: HashMap::new(), main: vec![], reorgs: 0,
+            parent: HashMap::new(), badext: Default::default(), gone: Default::default(), abandoned: vec![], reattached: 0,
+            selftest: std::env::var("VERIF_C19_SELFTEST").unwrap_or_default(),
+        };
         s.by_hash.insert(g.hash(), 0);
         record(&g.header().digest(), "L0".into());
         s.blocks.insert(0, g);
@@ -363,6 +417,63 @@ impl NSim {
         let mut v = vec![self.blocks[&0].header().digest()];
         for id in &self.main[..upto] {
             v.push(self.blocks[id].header().digest());
+        }
+        v
+    }
+
+    /// ids of the ancestor path genesis-exclusive ..= id (empty for genesis)
+    fn path_ids(&self, id: u64) -> Vec<u64> {
+        let mut v = vec![];
+        let mut cur = id;
+        while cur != 0 {
+            v.push(cur);
+            cur = *self.parent.get(&cur).expect("parent of a delivered block");
+        }
+        v.reverse();
+        v
+    }
+
+    fn digests_of(&self, ids: &[u64]) -> Vec<HeaderDigest> {
+        std::iter::once(0u64).chain(ids.iter().copied()).map(|i| self.blocks[&i].header().digest()).collect()
+    }
+
+    /// root (real merge; terms recorded) of the chain genesis + ids
+    fn root_of_ids(&mut self, ids: &[u64]) -> HeaderDigest {
+        let ds = self.digests_of(ids);
+        let rec = spec_root::<RecMerge>(&ds).expect("spec root");
+        let real = spec_root::<MergeHeaderDigest>(&ds).expect("spec root");
+        assert_eq!(rec.as_slice(), real.as_slice());
+        self.hash_terms.insert(real.calc_mmr_hash().as_slice().to_vec(), term_of(&real));
+        real
+    }
+
+    /// the property "a block with a non-conforming extension is never on the main chain", on the node's own index
+    fn check_main_clean(&self, out: &mut Out, line: &str) {
+        let snap = self.node().shared.snapshot();
+        let tip = snap.tip_header().number();
+        for n in 1..=tip {
+            match self.by_hash.get(&snap.get_block_hash(n).expect("index")) {
+                None => out.oracle_fail("unknown-block-on-main-chain", &format!("{line}: height {n}")),
+                Some(id) if self.badext.contains(id) || self.gone.contains(id) => out.oracle_fail("bad-extension-block-attached", &format!("{line}: block {id} at height {n}")),
+                _ => {}
+            }
+        }
+    }
+
+    /// roots of the abandoned chains' first n+1 blocks (0..=n) that differ from `current` (real merge)
+    fn abandoned_roots(&mut self, n: u64, current: &HeaderDigest) -> Vec<HeaderDigest> {
+        let mut v = vec![];
+        for ch in self.abandoned.clone() {
+            if (ch.len() as u64) < n || ch[..n as usize] == self.main[..(n as usize).min(self.main.len())] {
+                continue;
+            }
+            let r = self.root_of_ids(&ch[..n as usize]);
+            if r.as_slice() != current.as_slice() {
+                v.push(r);
+            }
+        }
+        if self.selftest == "abandoned-root" {
+            v.push(current.clone());
         }
         v
     }
@@ -393,24 +504,138 @@ impl NSim {
                     record(&blk.header().digest(), format!("L{id}"));
                     self.by_hash.insert(blk.hash(), id);
                     self.blocks.insert(id, blk);
-                    match r {
+                    self.parent.insert(id, parent);
+                    // a descendant of a stored, never verified block with a non-conforming extension is not a valid block
+                    let bad_ancestor = self.path_ids(parent).iter().any(|a| self.badext.contains(a) || self.gone.contains(a));
+                    let ans = match r {
                         Ok(_) => "ok".to_string(),
                         Err(e) => {
-                            out.oracle_fail("valid-block-rejected", &format!("{line}: {e}"));
+                            if !bad_ancestor {
+                                out.oracle_fail("valid-block-rejected", &format!("{line}: {e}"));
+                            } else {
+                                out.count("blk-on-bad-branch-rejected");
+                            }
+                            self.gone.insert(id);
                             "rejected".into()
                         }
-                    }
+                    };
+                    self.check_main_clean(out, line);
+                    ans
                 } else {
                     // the parent is the tip, so this block would become the best chain and is fully verified
                     assert_eq!(self.main.last().copied().unwrap_or(0), parent, "bad blocks are only offered on the tip");
-                    match r {
+                    let ans = match r {
                         Err(_) => "rejected".to_string(),
                         Ok(_) => {
                             out.oracle_fail("wrong-chain-root-accepted", line);
                             "ok".into()
                         }
+                    };
+                    self.check_main_clean(out, line);
+                    ans
+                }
+            }
+            "xblk" => {
+                let id: u64 = t[1].parse().unwrap();
+                let parent: u64 = t[2].parse().unwrap();
+                let ph = self.blocks.get(&parent).expect("unknown parent").hash();
+                // a fully valid block (the Extension tweak only keeps the builder from attaching it to its branch store)
+                let base = self.builder.build(&ph, &BlockSpec { salt: id, tweak: Tweak::Extension, ..Default::default() });
+                assert_eq!(base.number(), id % 10000, "id must encode the block number");
+                let path = self.path_ids(parent);
+                let full = self.root_of_ids(&path).calc_mmr_hash().as_slice().to_vec();
+                let root_hash: Vec<u8> = if let Some(k) = t[4].strip_prefix("at:") {
+                    let k: usize = k.parse().unwrap();
+                    self.root_of_ids(&path[..k]).calc_mmr_hash().as_slice().to_vec()
+                } else if let Some(o) = t[4].strip_prefix("of:") {
+                    let p2 = self.path_ids(o.parse().unwrap());
+                    self.root_of_ids(&p2).calc_mmr_hash().as_slice().to_vec()
+                } else {
+                    assert_eq!(t[4], "flip");
+                    let mut h = full.clone();
+                    h[0] ^= 1;
+                    h
+                };
+                let ext: Option<ckb_types::packed::Bytes> = if t[3] == "none" {
+                    None
+                } else {
+                    let len: usize = t[3].parse().unwrap();
+                    let mut bytes = root_hash.clone();
+                    bytes.resize(len.max(32), 0xAB);
+                    bytes.truncate(len);
+                    Some(ckb_types::bytes::Bytes::from(bytes).pack())
+                };
+                // the property's own notion of a conforming extension, on the bytes actually submitted
+                let conforming = ext.as_ref().map(|e| { let raw = e.raw_data(); raw.len() >= 32 && raw.len() <= 96 && raw[..32] == full[..] }).unwrap_or(false);
+                let blk = base.as_advanced_builder().extension(ext).build();
+                assert_eq!(blk.data().count_extra_fields(), if t[3] == "none" { 0 } else { 1 });
+                assert_eq!(blk.calc_extra_hash().extra_hash(), blk.extra_hash(), "extra_hash consistent");
+                assert_eq!(blk.number(), base.number());
+                let tip_before = self.node().tip().number();
+                let would_be_best = blk.number() > tip_before;
+                let bad_ancestor = path.iter().any(|a| self.badext.contains(a) || self.gone.contains(a));
+                out.count("xblk");
+                out.count(if conforming { "xblk-conforming" } else { "xblk-nonconforming" });
+                if !would_be_best { out.count("xblk-side-branch"); }
+                let r = self.node().process(&blk);
+                record(&blk.header().digest(), format!("L{id}"));
+                self.by_hash.insert(blk.hash(), id);
+                self.builder.blocks.insert(blk.hash(), blk.clone());
+                self.blocks.insert(id, blk);
+                self.parent.insert(id, parent);
+                if !conforming {
+                    self.badext.insert(id);
+                }
+                let ans = match r {
+                    Ok(_) => {
+                        if !conforming && would_be_best {
+                            out.oracle_fail("wrong-chain-root-accepted", &format!("{line}: non-conforming extension accepted as the best chain"));
+                        }
+                        "ok".to_string()
+                    }
+                    Err(e) => {
+                        if conforming && !bad_ancestor {
+                            out.oracle_fail("valid-block-rejected", &format!("{line}: {e}"));
+                        }
+                        self.gone.insert(id);
+                        "rejected".into()
+                    }
+                };
+                self.check_main_clean(out, line);
+                ans
+            }
+            "nodes" => {
+                use ckb_merkle_mountain_range::leaf_index_to_mmr_size as l2s;
+                out.count("nodes");
+                let snap = self.node().shared.snapshot();
+                let tip = snap.tip_header().number();
+                assert_eq!(tip as usize, self.main.len(), "`nodes` after a `main` line");
+                let size = l2s(tip);
+                // oracle: the node array over the main chain's digests (selftest: over the previous main chain)
+                let ids: Vec<u64> = if self.selftest == "stale-row" && !self.abandoned.is_empty() { self.abandoned.last().unwrap().clone() } else { self.main.clone() };
+                let ds = self.digests_of(&ids);
+                let rec = spec_nodes::<RecMerge>(&ds);
+                let want = spec_nodes::<MergeHeaderDigest>(&self.digests_of(&ids));
+                assert_eq!(rec.len(), want.len());
+                if self.selftest != "stale-row" {
+                    assert_eq!(want.len() as u64, size, "node count of the spec array = leaf_index_to_mmr_size(tip)");
+                }
+                let mut terms = vec![];
+                for pos in 0..size {
+                    match snap.get_header_digest(pos) {
+                        Some(d) => {
+                            if want.get(pos as usize).map(|w| w.as_slice() != d.as_slice()).unwrap_or(true) {
+                                out.oracle_fail("mmr-row-not-node-of-main-chain", &format!("{line}: position {pos} of {size}"));
+                            }
+                            terms.push(term_of(&d));
+                        }
+                        None => {
+                            out.oracle_fail("mmr-row-missing", &format!("{line}: position {pos} of {size}"));
+                            terms.push("none".to_string());
+                        }
                     }
                 }
+                format!("nodes {size} {}", join(&terms, ";"))
             }
             "main" => {
                 let ids = parse_list(t[1]);
@@ -420,9 +645,21 @@ impl NSim {
                 if common < self.main.len() {
                     self.reorgs += 1;
                     out.count("reorg");
+                    // blocks attached by this reorg that had been on the main chain before (verified_len > 0 in reconcile_main_chain)
+                    let re = ids[common..].iter().filter(|i| self.abandoned.iter().any(|ch| ch.contains(i))).count() as u64;
+                    if re > 0 {
+                        self.reattached += re;
+                        out.count("reorg-reattaching-verified-blocks");
+                    }
+                    let old = std::mem::take(&mut self.main);
+                    self.abandoned.push(old);
+                    if self.abandoned.len() > 4 {
+                        self.abandoned.remove(0);
+                    }
                 }
                 self.main = ids;
                 out.count("main");
+                self.check_main_clean(out, line);
                 let n = self.main.len() as u64;
                 self.root_line(out, line, n)
             }
@@ -527,8 +764,15 @@ impl NSim {
                                 if n > 1 {
                                     // ... and not against the chain one block shorter
                                     let other = term_of_hash(self, n - 2);
-                                    if matches!(MMRProof::new(leaf_index_to_mmr_size(n - 1), items.clone()).verify(other, leaves), Ok(true)) {
+                                    if matches!(MMRProof::new(leaf_index_to_mmr_size(n - 1), items.clone()).verify(other, leaves.clone()), Ok(true)) {
                                         out.oracle_fail("proof-accepted-for-wrong-chain", line);
+                                    }
+                                }
+                                // ... and not against the root an abandoned branch had at the same height
+                                for other in self.abandoned_roots(n - 1, &vh.parent_chain_root()) {
+                                    out.count("bp-checked-against-abandoned-root");
+                                    if matches!(MMRProof::new(leaf_index_to_mmr_size(n - 1), items.clone()).verify(other, leaves.clone()), Ok(true)) {
+                                        out.oracle_fail("proof-accepted-for-abandoned-chain", line);
                                     }
                                 }
                             }
@@ -727,8 +971,14 @@ impl NSim {
             let mut l2 = leaves.clone();
             l2.sort_by_key(|x| x.0);
             l2.dedup_by_key(|x| x.0);
-            if !matches!(MMRProof::new(leaf_index_to_mmr_size(n - 1), items.clone()).verify(vh.parent_chain_root(), l2), Ok(true)) {
+            if !matches!(MMRProof::new(leaf_index_to_mmr_size(n - 1), items.clone()).verify(vh.parent_chain_root(), l2.clone()), Ok(true)) {
                 out.oracle_fail("served-proof-does-not-verify", line);
+            }
+            for other in self.abandoned_roots(n - 1, &vh.parent_chain_root()) {
+                out.count("lsp-checked-against-abandoned-root");
+                if matches!(MMRProof::new(leaf_index_to_mmr_size(n - 1), items.clone()).verify(other, l2.clone()), Ok(true)) {
+                    out.oracle_fail("proof-accepted-for-abandoned-chain", line);
+                }
             }
         }
         let detail = format!("proof {} root {} roots={}", join(&items.iter().map(term_of).collect::<Vec<_>>(), ";"), term_of(&vh.parent_chain_root()), join(&roots, ";"));
@@ -896,6 +1146,336 @@ fn gen_case(out: &mut Out, rng: &mut Rng, base: &std::path::Path, n_blocks: usiz
     sim.finish();
 }
 
+// ------------------------------------------------------------------------------------ structured node scenarios
+
+/// total difficulty (low 64 bits) of main-chain block n, from the node's store
+fn td_of(s: &NSim, n: u64) -> u64 {
+    let id = if n == 0 { 0 } else { *s.main.get(n as usize - 1).unwrap_or(&0) };
+    let h = s.blocks[&id].hash();
+    s.node().store().get_block_ext(&h).expect("ext").total_difficulty.0[0]
+}
+
+/// scenario driver: fresh ids, `main` lines after every change of the node's main chain
+struct Drv {
+    sim: NSim,
+    uniq: u64,
+}
+
+impl Drv {
+    fn fresh(&mut self, parent: u64) -> u64 {
+        self.uniq += 1;
+        self.uniq * 10000 + parent % 10000 + 1
+    }
+
+    fn main_all(&self) -> Vec<u64> {
+        std::iter::once(0u64).chain(self.sim.main.iter().copied()).collect()
+    }
+
+    fn tipn(&self) -> u64 {
+        self.sim.main.len() as u64
+    }
+
+    /// emits a `main` line when the node's main chain changed; returns whether it did
+    fn sync_main(&mut self, out: &mut Out) -> bool {
+        let main = self.sim.node_main();
+        if main != self.sim.main {
+            self.sim.exec(out, &format!("main {}", join(&main, ",")));
+            true
+        } else {
+            false
+        }
+    }
+
+    fn blk(&mut self, out: &mut Out, parent: u64) -> u64 {
+        let id = self.fresh(parent);
+        self.sim.exec(out, &format!("blk {id} {parent}"));
+        self.sync_main(out);
+        id
+    }
+
+    fn xblk(&mut self, out: &mut Out, parent: u64, len: &str, src: &str) -> u64 {
+        let id = self.fresh(parent);
+        self.sim.exec(out, &format!("xblk {id} {parent} {len} {src}"));
+        self.sync_main(out);
+        id
+    }
+
+    fn grow(&mut self, out: &mut Out, parent: u64, k: u64) -> Vec<u64> {
+        let mut v = vec![];
+        let mut p = parent;
+        for _ in 0..k {
+            p = self.blk(out, p);
+            v.push(p);
+        }
+        v
+    }
+
+    /// blocks needed on `parent` to overtake the current tip
+    fn need(&self, parent: u64) -> u64 {
+        self.tipn() + 1 - parent % 10000
+    }
+
+    fn lsp(&mut self, out: &mut Out, rng: &mut Rng, last: u64, sn: u64) {
+        let main_all = self.main_all();
+        let ln = last % 10000;
+        let on_main = main_all.contains(&last);
+        let (start, boundary, diffs) = if on_main && ln > 0 {
+            let sn = sn.min(ln);
+            let lo = if sn == 0 { 0 } else { td_of(&self.sim, sn - 1) };
+            let b = td_of(&self.sim, rng.range(sn, ln));
+            let mut d: Vec<u64> = (0..rng.below(5)).map(|_| rng.range(lo + 1, b.max(lo + 2))).filter(|x| *x < b).collect();
+            d.sort();
+            d.dedup();
+            (main_all[sn as usize], b, d)
+        } else {
+            (0, 0, vec![])
+        };
+        let sn = if on_main { sn.min(ln) } else { 0 };
+        let params = format!("{last} {start} {sn} {} {boundary} {}", rng.range(1, 6), join(&diffs, ","));
+        let toks: Vec<&str> = params.split(' ').collect();
+        let (kind, numbers, _) = self.sim.lsp_call(&mut Out::new(&out.dir.join("probe")), &toks, "probe");
+        self.sim.exec(out, &format!("lsp {params} {kind} {}", join(&numbers, ",")));
+    }
+
+    /// everything that is observed after one step of a scenario; `fork` = number of the last common block of the step
+    fn checks(&mut self, out: &mut Out, rng: &mut Rng, fork: u64, extend: bool) {
+        let main = self.sim.node_main();
+        self.sim.exec(out, &format!("main {}", join(&main, ",")));
+        let tip = self.tipn();
+        self.sim.exec(out, "nodes");
+        if tip == 0 {
+            return;
+        }
+        self.sim.exec(out, &format!("ext {tip}"));
+        let mut ns = vec![0, fork.saturating_sub(1), fork, fork + 1, tip - 1, rng.below(tip + 1)];
+        ns.retain(|n| *n <= tip);
+        ns.sort();
+        ns.dedup();
+        for n in &ns {
+            self.sim.exec(out, &format!("rootat {n}"));
+        }
+        if fork + 1 <= tip {
+            self.sim.exec(out, &format!("ext {}", fork + 1));
+        }
+        let mut idxs = vec![fork.saturating_sub(1), fork, (fork + 1).min(tip), tip];
+        idxs.dedup();
+        self.sim.exec(out, &format!("proof {tip} {}", join(&idxs, ",")));
+        // light client: proofs for the new tip with header sets spanning the fork point
+        let main_all = self.main_all();
+        let tip_id = *main_all.last().unwrap();
+        let mut ids: Vec<u64> = [fork.saturating_sub(1), fork, fork + 1, (fork + tip) / 2 + 1, tip - 1].iter().filter(|n| **n < tip).map(|n| main_all[*n as usize]).collect();
+        ids.sort();
+        ids.dedup();
+        if !ids.is_empty() {
+            self.sim.exec(out, &format!("bp {tip_id} {}", join(&ids, ",")));
+        }
+        let gone_ids: Vec<u64> = self.sim.abandoned.iter().rev().flat_map(|c| c.iter().copied()).filter(|i| !main_all.contains(i)).take(3).collect();
+        if !gone_ids.is_empty() {
+            // hashes of the abandoned branch: must come back as missing, never as headers
+            let mut mix = gone_ids.clone();
+            mix.push(main_all[fork as usize]);
+            if tip_id != main_all[fork as usize] {
+                mix.sort();
+                mix.dedup();
+                self.sim.exec(out, &format!("bp {tip_id} {}", join(&mix, ",")));
+                out.count("bp-abandoned-hashes");
+            }
+            // `last` on the abandoned branch: the tip-state reply
+            self.sim.exec(out, &format!("bp {} {}", gone_ids[0], main_all[fork as usize]));
+            out.count("bp-last-abandoned");
+            self.lsp(out, rng, gone_ids[0], 0);
+        }
+        self.lsp(out, rng, tip_id, fork.saturating_sub(1));
+        let sn = rng.below(tip + 1);
+        self.lsp(out, rng, tip_id, sn);
+        if extend {
+            // the MMR below the tip is what the next block is verified against: a wrong and a right child of the tip
+            let bad = self.fresh(tip_id);
+            self.sim.exec(out, &format!("bad {bad} {tip_id}"));
+            self.blk(out, tip_id);
+            self.sim.exec(out, "nodes");
+            let t2 = self.tipn();
+            self.sim.exec(out, &format!("ext {t2}"));
+        }
+    }
+}
+
+/// A -> B -> A' (and C / B' ping-pong): `reconcile_main_chain` re-attaching already verified blocks
+fn gen_aba_case(out: &mut Out, rng: &mut Rng, base: &std::path::Path, variant: u64) {
+    let epoch_len = *rng.pick(&[3u64, 4, 7, 10]);
+    out.begin_case(&format!("node-aba epoch_len={epoch_len} v={variant}"));
+    let mut d = Drv { sim: NSim::new(base, epoch_len), uniq: 0 };
+    d.sim.exec(out, "main -");
+    d.sim.exec(out, "nodes");
+    // fork points incl. genesis, sizes around powers of two (where peaks merge)
+    let f = match variant % 4 { 0 => 0, 1 => *rng.pick(&[1u64, 2, 3, 4]), 2 => *rng.pick(&[6u64, 7, 8, 9]), _ => rng.range(0, 17) };
+    let trunk = d.grow(out, 0, f);
+    let fp = trunk.last().copied().unwrap_or(0);
+    let k = match rng.below(3) { 0 => rng.range(1, 3), 1 => { let mut p = 1; while p <= f { p *= 2; } (p - f) + rng.below(2) } _ => rng.range(2, 6) };
+    let a = d.grow(out, fp, k);
+    let e = rng.chance(1, 2);
+    d.checks(out, rng, f, e);
+    // B: same, lower or higher fork point; one block longer than the main chain
+    let main_all = d.main_all();
+    let fb = match rng.below(3) { 0 => f, 1 => rng.below(f + 1), _ => f + rng.below(k) };
+    let bp = main_all[fb as usize];
+    let nb = d.need(bp) + rng.below(2);
+    let b = d.grow(out, bp, nb);
+    assert_eq!(d.sim.main.last(), b.last(), "B is the main chain");
+    let e = rng.chance(1, 2);
+    d.checks(out, rng, fb, e);
+    // A': extend A (from its tip, or from the middle: only a prefix of A is re-attached) beyond B
+    let ai = if rng.chance(2, 3) { a.len() - 1 } else { rng.below(a.len() as u64) as usize };
+    let ap = a[ai];
+    let na = d.need(ap) + rng.below(2);
+    let a2 = d.grow(out, ap, na);
+    assert_eq!(d.sim.main.last(), a2.last(), "A' is the main chain");
+    d.checks(out, rng, fb.min(ap % 10000), true);
+    match variant % 3 {
+        0 => {
+            // ping-pong: B' re-attaches B
+            let bt = *b.last().unwrap();
+            let n = d.need(bt);
+            d.grow(out, bt, n);
+            d.checks(out, rng, fb, true);
+        }
+        1 => {
+            // a third branch C from anywhere on the tree
+            let all: Vec<u64> = std::iter::once(0).chain(trunk.iter().chain(a.iter()).chain(b.iter()).chain(a2.iter()).copied()).collect();
+            let cp = *rng.pick(&all);
+            let n = d.need(cp);
+            d.grow(out, cp, n);
+            let main_all = d.main_all();
+            let common = d.sim.path_ids(cp).len() as u64;
+            let _ = main_all;
+            d.checks(out, rng, common, true);
+        }
+        _ => {
+            // B' then A'': two more re-attachments
+            let bt = *b.last().unwrap();
+            let n = d.need(bt);
+            d.grow(out, bt, n);
+            d.checks(out, rng, fb, false);
+            let at = *d.sim.blocks.keys().filter(|i| a2.contains(i)).max().unwrap();
+            let n = d.need(at);
+            d.grow(out, at, n);
+            d.checks(out, rng, fb.min(ap % 10000), true);
+        }
+    }
+    if d.sim.reattached > 0 {
+        out.count("aba-case-with-reattach");
+        out.nontrivial(format!("aba:{epoch_len}:{:?}", d.sim.main));
+    }
+    d.sim.finish();
+}
+
+/// BlockExtensionVerifier boundaries through real submission, a failing and a succeeding reorg over a side-branch `xblk`
+fn gen_xblk_case(out: &mut Out, rng: &mut Rng, base: &std::path::Path, variant: u64) {
+    let epoch_len = *rng.pick(&[3u64, 4, 7, 10]);
+    out.begin_case(&format!("node-xblk epoch_len={epoch_len} v={variant}"));
+    let mut d = Drv { sim: NSim::new(base, epoch_len), uniq: 0 };
+    d.sim.exec(out, "main -");
+    let t = rng.range(2, 9);
+    d.grow(out, 0, t);
+    // a sibling of the tip (its chain root differs from the tip's own ancestors' only in the last leaf)
+    let main_all = d.main_all();
+    let sib = d.blk(out, main_all[t as usize - 1]);
+    // phase 1: every boundary on the tip (fully verified at delivery)
+    let mut variants: Vec<(String, String)> = vec![
+        ("none".into(), "full".into()), ("0".into(), "full".into()), ("1".into(), "full".into()), ("31".into(), "full".into()),
+        ("32".into(), "full".into()), ("33".into(), "full".into()), (rng.range(34, 95).to_string(), "full".into()), ("96".into(), "full".into()),
+        ("97".into(), "full".into()), (rng.range(98, 200).to_string(), "full".into()),
+        ("32".into(), "prev".into()), ("32".into(), "at:0".into()), (rng.range(32, 96).to_string(), "rand".into()),
+        ("32".into(), "flip".into()), ("96".into(), "flip".into()), ("32".into(), "sib".into()), ("40".into(), "ofself".into()),
+    ];
+    rng.shuffle(&mut variants);
+    for (len, src) in variants {
+        let tipn = d.tipn();
+        let tip = *d.main_all().last().unwrap();
+        let src = match src.as_str() {
+            "full" => format!("at:{tipn}"),
+            "prev" => format!("at:{}", tipn - 1),
+            "rand" => format!("at:{}", rng.below(tipn)),
+            "sib" => format!("of:{}", if tipn == t { sib } else { let m = d.main_all(); let s2 = d.blk(out, m[tipn as usize - 1]); s2 }),
+            "ofself" => format!("of:{tip}"),
+            o => o.to_string(),
+        };
+        let before = d.tipn();
+        let x = d.xblk(out, tip, &len, &src);
+        if d.tipn() > before {
+            // accepted: a normal block of the tree
+            d.sim.exec(out, &format!("ext {}", d.tipn()));
+            d.sim.exec(out, "nodes");
+            if rng.chance(1, 2) {
+                d.blk(out, x);
+            }
+        }
+    }
+    d.checks(out, rng, d.tipn().saturating_sub(1), true);
+    // phase 2: a non-conforming block on a side branch (stored unverified), descendants until the branch would overtake
+    for round in 0..2 {
+        let h = d.tipn();
+        let f = if round == 0 && variant % 2 == 0 { 0 } else { h - rng.range(1, h.min(5)) };
+        let main_all = d.main_all();
+        let old_tip = *main_all.last().unwrap();
+        let mut p = main_all[f as usize];
+        let side_len = h - f; // heights f+1..=h are not heavier
+        let j = rng.below(side_len);
+        let mut side = vec![];
+        for i in 0..side_len {
+            p = if i == j {
+                let n = p % 10000;
+                let (len, src) = match rng.below(7) {
+                    0 => ("none".to_string(), format!("at:{n}")),
+                    1 => ("31".to_string(), format!("at:{n}")),
+                    2 => ("97".to_string(), format!("at:{n}")),
+                    3 => ("32".to_string(), "flip".to_string()),
+                    4 if n > 0 => ("32".to_string(), format!("at:{}", n - 1)),
+                    5 => ("64".to_string(), format!("of:{}", main_all[(n as usize + 1).min(h as usize)])),
+                    _ => ("0".to_string(), format!("at:{n}")),
+                };
+                d.xblk(out, p, &len, &src)
+            } else {
+                d.blk(out, p)
+            };
+            side.push(p);
+        }
+        assert_eq!(*d.main_all().last().unwrap(), old_tip, "side branch not heavier");
+        // the overtaking block: the reorg must fail, twice
+        let o1 = d.blk(out, p);
+        let o2 = d.blk(out, p);
+        out.count("failed-reorg-over-bad-side-block");
+        let _ = (o1, o2);
+        let main = d.sim.node_main();
+        assert_eq!(main.last().copied().unwrap_or(0), old_tip);
+        // nothing of the failed reorg was committed: rows, roots, proofs, and the next block on the old tip
+        let mut ask = side.clone();
+        ask.push(main_all[f as usize]);
+        ask.retain(|i| *i != old_tip);
+        ask.sort();
+        ask.dedup();
+        d.sim.exec(out, &format!("bp {old_tip} {}", join(&ask, ",")));
+        d.checks(out, rng, f, true);
+    }
+    // phase 3: a conforming 32+k byte extension in the middle of a side branch that does overtake
+    {
+        let h = d.tipn();
+        let f = h - rng.range(1, h.min(4));
+        let main_all = d.main_all();
+        let mut p = main_all[f as usize];
+        let total = h - f + 1;
+        let j = rng.below(total);
+        for i in 0..total {
+            p = if i == j { let len = rng.range(33, 96); d.xblk(out, p, &len.to_string(), &format!("of:{p}")) } else { d.blk(out, p) };
+        }
+        assert_eq!(*d.main_all().last().unwrap(), p, "conforming side branch overtakes");
+        out.count("reorg-over-conforming-xblk");
+        d.checks(out, rng, f, true);
+    }
+    out.nontrivial(format!("xblk:{epoch_len}:{:?}", d.sim.main));
+    d.sim.finish();
+}
+
 
 // ------------------------------------------------------------------------------------ filter service
 
@@ -906,6 +1486,22 @@ fn gen_case(out: &mut Out, rng: &mut Rng, base: &std::path::Path, n_blocks: usiz
 ///   sync <main ids>              -> built <ids of all blocks (any fork) that have a filter hash>
 ///   filter <id> <tx> <tx> ..     -> n=<N> elems=<script ids> missing=<k>   (tx = c|n / in-cells / out-cells,
 ///                                   cells are lock:type script ids, resolved by the harness)
+///   syncm <main ids>             -> mbuilt <main-chain ids (0 first) that have a filter hash> latest=<id>
+///                                   as `sync`, but only canonical facts are compared with the model: used after bursts
+///                                   (several tip changes A->B->A' delivered without waiting for the service, where it is
+///                                   timing-dependent which abandoned-branch blocks get filters). Once a case has used a burst
+///                                   it only uses `syncm`.
+///   hblk <id> <parent>           -> ok          (cases labelled `nfilter-hand`: no node yet) a block built by the builder only
+///   hstart <main ids> <built ids> <latest>
+///                                -> mbuilt .. latest=..   a RocksDB store is populated by hand: every `hblk` block inserted, the
+///                                   blocks of <main ids> attached as the main chain (tip / epoch / MMR / BlockExt with a total
+///                                   difficulty larger than any other branch's, so the main chain may be SHORTER than an
+///                                   abandoned one), filter rows written with StoreTransaction::insert_block_filter for
+///                                   <built ids> in that order and LATEST_BUILT_FILTER_DATA = <latest>; then a node is started
+///                                   on that directory and BlockFilter::start() runs its start-up `build_filter_data` pass.
+/// At quiescence (sync / syncm / hstart): every main-chain block 0..=tip has filter data and a filter hash chaining from its
+/// parent's (no early exit on the first gap), LATEST_BUILT_FILTER_DATA is on the main chain, and the service is alive (the
+/// tip's filter appears within 60 s).
 mod nfilter {
     use super::*;
     use ckb_block_filter::filter::BlockFilter;
@@ -933,6 +1529,17 @@ mod nfilter {
         pub main: Vec<u64>,
         pub reorgs: u64,
         pub with_txs: u64,
+        base: std::path::PathBuf,
+        cfg: NodeCfg,
+        selftest: String,
+        pub latest_abandoned_at_reorg: u64,
+    }
+
+    struct NoCells;
+    impl ckb_types::utilities::FilterDataProvider for NoCells {
+        fn cell(&self, _out_point: &OutPoint) -> Option<CellOutput> {
+            None
+        }
     }
 
     fn lock_script(base: &Script, id: u64) -> Script {
@@ -941,19 +1548,29 @@ mod nfilter {
 
     impl FNode {
         pub fn new(base: &std::path::Path, epoch_len: u64) -> FNode {
+            Self::new_opts(base, epoch_len, true)
+        }
+
+        pub fn new_opts(base: &std::path::Path, epoch_len: u64, start_node: bool) -> FNode {
             let _ = std::fs::remove_dir_all(base);
             let cfg = NodeCfg { epoch_len, window: (2, 4), with_pool: false, genesis_cells: 64, ..Default::default() };
             let consensus = make_consensus(&cfg);
-            let node = Node::start(&base.join("node"), consensus.clone(), &cfg);
-            BlockFilter::new(node.shared.clone()).start();
+            let node = if start_node {
+                let node = Node::start(&base.join("node"), consensus.clone(), &cfg);
+                BlockFilter::new(node.shared.clone()).start();
+                Some(node)
+            } else {
+                None
+            };
             let builder = ChainBuilder::new(consensus.clone(), &base.join("builder"));
             let g = builder.genesis();
             let genesis = genesis_cells(&consensus);
             let genesis_lock = g.transactions()[1].outputs().get(0).unwrap().lock();
             let mut s = FNode {
-                node: Some(node), builder, blocks: HashMap::new(), by_hash: HashMap::new(), parent: HashMap::new(), proposed: HashMap::new(),
+                node, builder, blocks: HashMap::new(), by_hash: HashMap::new(), parent: HashMap::new(), proposed: HashMap::new(),
                 genesis, genesis_lock: genesis_lock.clone(), script_ids: HashMap::new(), scripts: BTreeMap::new(), next_foreign: 9000,
                 main: vec![], reorgs: 0, with_txs: 0,
+                base: base.to_path_buf(), cfg: cfg.clone(), selftest: std::env::var("VERIF_C19_SELFTEST").unwrap_or_default(), latest_abandoned_at_reorg: 0,
             };
             s.register(0, genesis_lock.clone());
             for id in 1..=6u64 {
@@ -1068,6 +1685,136 @@ mod nfilter {
             false
         }
 
+        /// waits for the service, then evaluates the property on the node's store.
+        /// Returns (main-chain ids with a filter hash, all ids with a filter hash, latest-built id as text)
+        fn quiesce_and_check(&self, out: &mut Out, line: &str) -> (Vec<u64>, Vec<u64>, String) {
+            let tip_hash = self.node().tip_hash();
+            if !self.wait_built(&tip_hash) {
+                out.oracle_fail("filter-never-built", &format!("{line}: no filter for the tip after 60 s"));
+            }
+            // the property on the node's store: every main-chain block has a filter, hashes chain
+            let store = self.node().store();
+            let mut parent_hash = Some(Byte32::zero());
+            let mut main_built = vec![];
+            for (n, id) in std::iter::once(0u64).chain(self.main.iter().copied()).enumerate() {
+                let h = self.blocks[&id].hash();
+                let skip = self.selftest == "skip-filter" && n == 1;
+                match (store.get_block_filter(&h), store.get_block_filter_hash(&h)) {
+                    (Some(data), Some(fh)) if !skip => {
+                        main_built.push(id);
+                        match &parent_hash {
+                            Some(ph) => {
+                                let mut buf = ph.as_slice().to_vec();
+                                buf.extend_from_slice(&blake2b_256(data.raw_data()));
+                                if fh.as_slice() != blake2b_256(&buf) || fh.as_slice() != calc_filter_hash(ph, &data) {
+                                    out.oracle_fail("filter-hash-not-chained", &format!("{line}: block {id}"));
+                                }
+                            }
+                            // the parent has no filter hash (already reported): nothing to chain from
+                            None => out.oracle_fail("filter-hash-not-chained", &format!("{line}: block {id} has a filter hash but its parent has none")),
+                        }
+                        parent_hash = Some(fh);
+                    }
+                    (d, f) => {
+                        out.oracle_fail("main-chain-block-without-filter", &format!("{line}: block {id} (data {} hash {})", d.is_some(), f.is_some()));
+                        parent_hash = f;
+                    }
+                }
+            }
+            let latest = match store.get_latest_built_filter_data_block_hash() {
+                None => {
+                    out.oracle_fail("latest-built-not-on-main-chain", &format!("{line}: no LATEST_BUILT_FILTER_DATA"));
+                    "none".to_string()
+                }
+                Some(h) => match self.by_hash.get(&h) {
+                    Some(id) => {
+                        if *id != 0 && !self.main.contains(id) {
+                            out.oracle_fail("latest-built-not-on-main-chain", &format!("{line}: latest built = block {id}"));
+                        }
+                        id.to_string()
+                    }
+                    None => {
+                        out.oracle_fail("latest-built-not-on-main-chain", &format!("{line}: latest built is an unknown block"));
+                        "?".to_string()
+                    }
+                },
+            };
+            let mut built: Vec<u64> = self.blocks.iter().filter(|(_, b)| store.get_block_filter_hash(&b.hash()).is_some()).map(|(id, _)| *id).collect();
+            built.sort();
+            (main_built, built, latest)
+        }
+
+        /// `hstart`: write the store by hand (as ChainBuilder's builder stores are written, see node.rs `attach`), then start a node on it
+        fn hand_populate(&mut self, main: &[u64], built: &[u64], latest: u64) {
+            use ckb_merkle_mountain_range::leaf_index_to_mmr_size;
+            use ckb_store::{attach_block_cell, ChainDB};
+            use ckb_types::core::BlockExt;
+            use ckb_types::utilities::merkle_mountain_range::ChainRootMMR;
+            assert!(self.node.is_none());
+            let consensus = make_consensus(&self.cfg);
+            let dir = self.base.join("node");
+            // let the node create and version the database (genesis initialised), then stop it
+            let n = Node::start(&dir, consensus.clone(), &self.cfg);
+            n.stop();
+            {
+                let db = ChainDB::new(ckb_db::RocksDB::open_in(dir.join("db"), ckb_db_schema::COLUMNS), Default::default());
+                let mut order: Vec<u64> = self.blocks.keys().copied().filter(|i| *i != 0).collect();
+                order.sort_by_key(|i| (i % 10000, *i));
+                let longest = order.iter().map(|i| i % 10000).max().unwrap_or(0);
+                // every block of every branch: body, epoch index, ext (natural total difficulty; main-chain blocks get a bonus)
+                for id in &order {
+                    let block = self.blocks[id].clone();
+                    let on_main = main.contains(id);
+                    let txn = db.begin_transaction();
+                    let parent_header = db.get_block_header(&block.parent_hash()).expect("parent inserted first");
+                    let parent_ext = db.get_block_ext(&block.parent_hash()).expect("parent ext");
+                    let next_epoch = consensus.next_epoch_ext(&parent_header, &db.borrow_as_data_loader()).expect("epoch");
+                    let is_head = next_epoch.is_head();
+                    let epoch = next_epoch.epoch();
+                    txn.insert_block(&block).unwrap();
+                    txn.insert_block_epoch_index(&block.hash(), &epoch.last_block_hash_in_previous_epoch()).unwrap();
+                    if is_head {
+                        if on_main { txn.insert_epoch_ext(&epoch.last_block_hash_in_previous_epoch(), &epoch).unwrap(); } else { txn.insert_epoch_ext_only(&epoch.last_block_hash_in_previous_epoch(), &epoch).unwrap(); }
+                    }
+                    let mut td = parent_ext.total_difficulty.clone() + block.header().difficulty();
+                    assert!(!on_main || self.parent[id] == 0 || main.contains(&self.parent[id]), "main chain is connected");
+                    if on_main && block.number() as usize == main.len() {
+                        // the tip of the (possibly shorter) main chain is heavier than every other branch
+                        td = td + block.header().difficulty() * ckb_types::U256::from(longest + 1);
+                    }
+                    let ext = BlockExt { received_at: 0, total_difficulty: td, total_uncles_count: 0, verified: Some(true), txs_fees: vec![], cycles: None, txs_sizes: None };
+                    txn.insert_block_ext(&block.hash(), &ext).unwrap();
+                    if on_main {
+                        txn.attach_block(&block).unwrap();
+                        attach_block_cell(&txn, &block).unwrap();
+                        txn.insert_tip_header(&block.header()).unwrap();
+                        txn.insert_current_epoch_ext(&epoch).unwrap();
+                        let mut mmr = ChainRootMMR::new(leaf_index_to_mmr_size(block.number() - 1), &txn);
+                        mmr.push(block.digest()).expect("mmr push");
+                        mmr.commit().expect("mmr commit");
+                    }
+                    txn.commit().unwrap();
+                }
+                // filter rows, in the given order; the pointer ends at `latest`
+                let mut rows: Vec<u64> = built.to_vec();
+                if rows.last() != Some(&latest) {
+                    rows.push(latest);
+                }
+                for id in rows {
+                    let block = self.blocks[&id].clone();
+                    let (data, _) = ckb_types::utilities::build_filter_data(NoCells, &block.transactions());
+                    let parent_fh = if id == 0 { Byte32::zero() } else { db.get_block_filter_hash(&block.parent_hash()).expect("hand-written filters are chained: parent first") };
+                    let txn = db.begin_transaction();
+                    let packed: ckb_types::packed::Bytes = data.into();
+                    txn.insert_block_filter(&block.hash(), &packed, &parent_fh).unwrap();
+                    txn.commit().unwrap();
+                }
+            }
+            let node = Node::start(&dir, consensus, &self.cfg);
+            BlockFilter::new(node.shared.clone()).start();
+            self.node = Some(node);
+        }
+
         pub fn exec(&mut self, out: &mut Out, line: &str, pick: &mut dyn FnMut(u64) -> u64) {
             let t: Vec<&str> = line.split_whitespace().collect();
             let ans = match t[0] {
@@ -1093,43 +1840,57 @@ mod nfilter {
                         }
                     }
                 }
-                "sync" => {
+                "sync" | "syncm" => {
                     let ids = parse_list(t[1]);
                     assert_eq!(ids, self.node_main(), "replayed main chain differs from the node's");
                     let common = self.main.iter().zip(&ids).take_while(|(a, b)| a == b).count();
                     if common < self.main.len() {
                         self.reorgs += 1;
                         out.count("reorg");
-                    }
-                    self.main = ids;
-                    out.count("sync");
-                    let tip_hash = self.node().tip_hash();
-                    if !self.wait_built(&tip_hash) {
-                        out.oracle_fail("filter-never-built", &format!("{line}: no filter for the tip after 60 s"));
-                    }
-                    // the property on the node's store: every main-chain block has a filter, hashes chain
-                    let store = self.node().store();
-                    let mut parent_hash = Byte32::zero();
-                    for id in std::iter::once(0u64).chain(self.main.iter().copied()) {
-                        let h = self.blocks[&id].hash();
-                        match (store.get_block_filter(&h), store.get_block_filter_hash(&h)) {
-                            (Some(data), Some(fh)) => {
-                                let mut buf = parent_hash.as_slice().to_vec();
-                                buf.extend_from_slice(&blake2b_256(data.raw_data()));
-                                if fh.as_slice() != blake2b_256(&buf) || fh.as_slice() != calc_filter_hash(&parent_hash, &data) {
-                                    out.oracle_fail("filter-hash-not-chained", &format!("{line}: block {id}"));
-                                }
-                                parent_hash = fh;
-                            }
-                            _ => {
-                                out.oracle_fail("main-chain-block-without-filter", &format!("{line}: block {id}"));
-                                break;
+                        // where was LATEST_BUILT_FILTER_DATA when the reorg was noticed by the harness?
+                        if let Some(l) = self.node().store().get_latest_built_filter_data_block_hash() {
+                            if self.by_hash.get(&l).map(|i| *i != 0 && !ids.contains(i)).unwrap_or(false) {
+                                self.latest_abandoned_at_reorg += 1;
+                                out.count("reorg-with-latest-built-on-abandoned-branch");
                             }
                         }
                     }
-                    let mut built: Vec<u64> = self.blocks.iter().filter(|(_, b)| store.get_block_filter_hash(&b.hash()).is_some()).map(|(id, _)| *id).collect();
-                    built.sort();
-                    format!("built {}", join(&built, ","))
+                    self.main = ids;
+                    out.count(t[0]);
+                    let (main_built, all_built, latest) = self.quiesce_and_check(out, line);
+                    if t[0] == "sync" {
+                        format!("built {}", join(&all_built, ","))
+                    } else {
+                        format!("mbuilt {} latest={latest}", join(&main_built, ","))
+                    }
+                }
+                "hblk" => {
+                    let id: u64 = t[1].parse().unwrap();
+                    let parent: u64 = t[2].parse().unwrap();
+                    assert!(self.node.is_none(), "hblk before hstart");
+                    let blk = self.build(id, parent, 0, pick);
+                    assert_eq!(blk.number(), id % 10000);
+                    assert_eq!(blk.transactions().len(), 1);
+                    out.count("hblk");
+                    self.by_hash.insert(blk.hash(), id);
+                    self.parent.insert(id, parent);
+                    self.blocks.insert(id, blk);
+                    "ok".to_string()
+                }
+                "hstart" => {
+                    let main = parse_list(t[1]);
+                    let built = parse_list(t[2]);
+                    let latest: u64 = t[3].parse().unwrap();
+                    out.count("hstart");
+                    self.hand_populate(&main, &built, latest);
+                    let longest = self.blocks.keys().map(|i| i % 10000).max().unwrap_or(0);
+                    if (main.len() as u64) < longest {
+                        out.count("hstart-main-shorter-than-abandoned");
+                    }
+                    self.main = main;
+                    assert_eq!(self.main, self.node_main(), "hand-populated main chain");
+                    let (main_built, _, latest) = self.quiesce_and_check(out, line);
+                    format!("mbuilt {} latest={latest}", join(&main_built, ","))
                 }
                 "filter" => {
                     let id: u64 = t[1].parse().unwrap();
@@ -1266,6 +2027,116 @@ mod nfilter {
         }
         sim.finish();
     }
+
+    /// Structured histories: deterministic A -> B -> A' steps (the harness waits after each), then bursts
+    /// (B' -> A'' -> ... delivered without waiting), fork points tip-1 .. genesis; a final block proves the service alive.
+    pub fn gen_reorg_case(out: &mut Out, rng: &mut Rng, base: &std::path::Path, variant: u64) {
+        let epoch_len = *rng.pick(&[4u64, 7, 10]);
+        out.begin_case(&format!("nfilter-reorg epoch_len={epoch_len} v={variant} seed={}", rng.0));
+        let mut content = Rng(rng.0);
+        let mut sim = FNode::new(&base.join(format!("case{}", out.case)), epoch_len);
+        let mut uniq = 0u64;
+        macro_rules! ex { ($l:expr) => { sim.exec(out, &$l, &mut |n| content.below(n)) }; }
+        macro_rules! grow { ($parent:expr, $k:expr) => {{
+            let mut p: u64 = $parent;
+            let mut v: Vec<u64> = vec![];
+            for _ in 0..$k { uniq += 1; let id = uniq * 10000 + p % 10000 + 1; ex!(format!("blk {id} {p}")); p = id; v.push(id); }
+            v
+        }}; }
+        macro_rules! sync { ($op:expr) => {{ let m = sim.node_main(); ex!(format!("{} {}", $op, join(&m, ","))); let tip = *m.last().unwrap(); let l = sim.filter_line(tip); ex!(l); }}; }
+        ex!("sync -".to_string());
+        let f = match variant % 3 { 0 => 0, 1 => rng.range(1, 3), _ => rng.range(3, 8) };
+        let trunk = grow!(0, f);
+        let fp = trunk.last().copied().unwrap_or(0);
+        let k = rng.range(1, 5);
+        let a = grow!(fp, k);
+        sync!("sync");
+        // B: fork point tip-1 .. deep, incl. genesis; LATEST_BUILT = A's tip is abandoned, B's first forked block has no filter
+        let tipn = sim.main.len() as u64;
+        let fb = match rng.below(4) { 0 => tipn - 1, 1 => 0, 2 => f, _ => rng.below(tipn) };
+        let main_all: Vec<u64> = std::iter::once(0u64).chain(sim.main.iter().copied()).collect();
+        let b = grow!(main_all[fb as usize], tipn - fb + 1);
+        sync!("sync");
+        // A': LATEST_BUILT = B's tip is abandoned, the replacing blocks at the first forked heights already have filters
+        let ai = rng.below(a.len() as u64) as usize;
+        let need = sim.main.len() as u64 + 1 - a[ai] % 10000;
+        let a2 = grow!(a[ai], need);
+        sync!("sync");
+        // bursts: tips flip between the branches (and a third one) without waiting
+        let mut tips = vec![*b.last().unwrap(), *a2.last().unwrap()];
+        let rounds = 1 + rng.below(3);
+        for r in 0..rounds {
+            let flips = 2 + rng.below(2);
+            for i in 0..flips {
+                let which = if rng.chance(1, 4) {
+                    // a new branch from a random main-chain block (incl. genesis)
+                    let m: Vec<u64> = std::iter::once(0u64).chain(sim.node_main().into_iter()).collect();
+                    tips.push(m[rng.below(m.len() as u64) as usize]);
+                    tips.len() - 1
+                } else {
+                    ((r + i) as usize) % tips.len()
+                };
+                let cur = sim.node_main().len() as u64;
+                let from = tips[which];
+                if from % 10000 > cur { continue; }
+                let v = grow!(from, cur + 1 - from % 10000);
+                if let Some(l) = v.last() { tips[which] = *l; }
+            }
+            out.count("burst");
+            sync!("syncm");
+        }
+        // the service is still alive: one more block, its filter must appear
+        let tip = sim.node_main().last().copied().unwrap_or(0);
+        grow!(tip, 1);
+        sync!("syncm");
+        if sim.reorgs >= 3 {
+            out.nontrivial(format!("reorg:{epoch_len}:{:?}", sim.main));
+        }
+        sim.finish();
+    }
+
+    /// The real start-up pass of `build_filter_data` over a hand-written store whose main chain is SHORTER than the
+    /// abandoned branch that holds LATEST_BUILT_FILTER_DATA.
+    pub fn gen_hand_case(out: &mut Out, rng: &mut Rng, base: &std::path::Path, variant: u64) {
+        let epoch_len = *rng.pick(&[4u64, 7, 10]);
+        out.begin_case(&format!("nfilter-hand epoch_len={epoch_len} v={variant} seed={}", rng.0));
+        let mut content = Rng(rng.0);
+        let mut sim = FNode::new_opts(&base.join(format!("case{}", out.case)), epoch_len, false);
+        let mut uniq = 0u64;
+        macro_rules! ex { ($l:expr) => { sim.exec(out, &$l, &mut |n| content.below(n)) }; }
+        macro_rules! grow { ($op:expr, $parent:expr, $k:expr) => {{
+            let mut p: u64 = $parent;
+            let mut v: Vec<u64> = vec![];
+            for _ in 0..$k { uniq += 1; let id = uniq * 10000 + p % 10000 + 1; ex!(format!("{} {id} {p}", $op)); p = id; v.push(id); }
+            v
+        }}; }
+        let f = match variant % 3 { 0 => 0, 1 => rng.range(1, 2), _ => rng.range(3, 6) };
+        let trunk = grow!("hblk", 0, f);
+        let fp = trunk.last().copied().unwrap_or(0);
+        let m = rng.range(2, 6);
+        let long = grow!("hblk", fp, m);
+        let n = rng.range(1, m - 1);
+        let short = grow!("hblk", fp, n);
+        // filters exist for genesis, the trunk and a prefix of the long branch; the pointer is its last built block
+        let j = if rng.chance(1, 2) { m } else { rng.range(1, m) } as usize;
+        let mut built = vec![0u64];
+        built.extend(trunk.iter().copied());
+        built.extend(long[..j].iter().copied());
+        let latest = *built.last().unwrap();
+        let mut main = trunk.clone();
+        main.extend(short.iter().copied());
+        ex!(format!("hstart {} {} {latest}", join(&main, ","), join(&built, ",")));
+        // the node goes on from the hand-written state: the next block on the shorter, heavier chain is the best
+        let tip = *main.last().unwrap();
+        let v = grow!("blk", tip, 2);
+        let mm = sim.node_main();
+        assert_eq!(mm.last(), v.last(), "the shorter chain is the heavier one");
+        ex!(format!("syncm {}", join(&mm, ",")));
+        let l = sim.filter_line(*v.last().unwrap());
+        ex!(l);
+        out.nontrivial(format!("hand:{epoch_len}:{f}:{m}:{n}:{j}"));
+        sim.finish();
+    }
 }
 
 pub fn run(opts: &Opts) {
@@ -1292,7 +2163,7 @@ pub fn run(opts: &Opts) {
                     out.begin_case(&label);
                     let get = |k: &str| label.split(k).nth(1).and_then(|s| s.split_whitespace().next()).and_then(|s| s.parse::<u64>().ok());
                     content = Rng(get("seed=").unwrap_or(0));
-                    sim = Some(nfilter::FNode::new(&base.join(format!("case{}", out.case)), get("epoch_len=").unwrap_or(4)));
+                    sim = Some(nfilter::FNode::new_opts(&base.join(format!("case{}", out.case)), get("epoch_len=").unwrap_or(4), !label.starts_with("nfilter-hand")));
                 } else if !skip {
                     sim.as_mut().expect("case line first").exec(&mut out, line, &mut |n| content.below(n));
                 }
@@ -1302,6 +2173,13 @@ pub fn run(opts: &Opts) {
             }
         } else {
             let (cases, blocks) = if opts.thorough() { (90 * opts.scale, 60) } else { (6 * opts.scale, 40) };
+            let (n_reorg, n_hand) = if opts.thorough() { (60 * opts.scale, 40 * opts.scale) } else { (4 * opts.scale, 3 * opts.scale) };
+            for v in 0..n_reorg {
+                nfilter::gen_reorg_case(&mut out, &mut rng, &base, v);
+            }
+            for v in 0..n_hand {
+                nfilter::gen_hand_case(&mut out, &mut rng, &base, v);
+            }
             for _ in 0..cases {
                 nfilter::gen_case(&mut out, &mut rng, &base, blocks);
             }
@@ -1337,6 +2215,14 @@ pub fn run(opts: &Opts) {
         }
     } else {
         let (cases, blocks) = if opts.thorough() { (160 * opts.scale, 70) } else { (8 * opts.scale, 45) };
+        // structured scenarios first (every run reaches them), then the random walk
+        let (n_aba, n_xblk) = if opts.thorough() { (60 * opts.scale, 30 * opts.scale) } else { (6 * opts.scale, 2 * opts.scale) };
+        for v in 0..n_aba {
+            gen_aba_case(&mut out, &mut rng, &base, v);
+        }
+        for v in 0..n_xblk {
+            gen_xblk_case(&mut out, &mut rng, &base, v);
+        }
         for _ in 0..cases {
             gen_case(&mut out, &mut rng, &base, blocks);
         }
